@@ -4,7 +4,7 @@
    names print and parse back. The per-token rendering clause and the parse-back clause are decided by correspondence
    against the spec renderer that walks the format string (Extract/Dispatch.v spec_render): partial, see DESIGN.md. *)
 From Coq Require Import ZArith Bool List.
-From HF Require Import Text TextFmt TextParse TextSpec TextP.
+From HF Require Import Text Duration Epoch Gregorian TextFmt TextParse TextSpec TextP.
 Import ListNotations.
 Open Scope Z_scope.
 
@@ -22,3 +22,13 @@ Proof. exact weekday_name_roundtrip. Qed.
 Theorem C19_month_names : forall m, 1 <= m <= 12 ->
   month_from_str (month_long m) = Some m /\ month_from_str (month_short m) = Some m.
 Proof. exact month_name_roundtrip. Qed.
+(* the ISO 8601 formatter prints what Display prints, for every epoch whose sub-second part is non-zero; for whole seconds
+   they differ (known finding iso8601-vs-display-whole-seconds, witness below): Display omits the fraction, the formatter's
+   documented %f is not optional *)
+Theorem C19_iso8601_is_display : forall e, weekday e <> None -> nanos_of (compute_gregorian (dur e) (scale e)) <> 0 ->
+  formatter_new e (predefined_by_index 0) = ROk (display_epoch e).
+Proof. exact iso8601_is_display_when_subsecond. Qed.
+Theorem C19_iso8601_display_whole_second_witness :
+  exists e, weekday e <> None /\ nanos_of (compute_gregorian (dur e) (scale e)) = 0 /\
+            formatter_new e (predefined_by_index 0) <> ROk (display_epoch e).
+Proof. exact iso8601_display_whole_second_witness. Qed.
